@@ -32,19 +32,29 @@ POOLS = {
     "cpkl": [(1, 2), u"s", {"a": [1]}, 3.5],
     "ccomp": [u"c" * 10, u"", u"é" * 50, u"zip" * 400],
     "cvarx": [u"v", u"", u"x" * 300, u"y" * 30000, u"z" * 70],      # variable-length column that stores its offsets early
+    # column-only fields of the remaining column types
+    "cbitc": [True, False],
+    "cpklc": [(1, 2), u"s", {"a": [1]}, 3.5, [u"x", 2]],
+    "clist": [[b"a", b"bc"], [b"x" * 300], [b"", b"q"], [b"one"]],
+    "cflist": [[b"ab", b"cd"], [b"zz"], [b"qq", b"qq", b"ab"]],
+    "cblock": [b"c1", b"block" * 50, b"\x00\xff", b"z" * 2000],
+    "cstruct": [(1, 2), (-5, 7), (2 ** 31 - 1, -(2 ** 15)), (0, 1)],
     "ccol": [b"c1", b"\x00\xff", b"col" * 60, b"z"],        # a column-only field (fields.COLUMN): no postings at all
 }
 for i in range(300):                      # enough distinct values to cross the 256 threshold of reference columns
     POOLS["cref"].append(u"ref-%04d" % i)
 
 STORED_FIELDS = ("blob", "tags", "num", "big", "ratio", "when", "flag")
-COLUMN_FIELDS = ("num", "big", "ratio", "when", "flag", "cref", "cvar", "cfix", "cbit", "cpkl", "ccomp", "tags", "ccol", "cvarx")
+COLUMN_FIELDS = ("num", "big", "ratio", "when", "flag", "cref", "cvar", "cfix", "cbit", "cpkl", "ccomp", "tags", "ccol", "cvarx",
+                 "cbitc", "cpklc", "clist", "cflist", "cblock", "cstruct")
 
 
 def okey(v):
     """hashable identity of a pool value (type-aware: True != 1, -0.0 != 0.0)"""
     import math
     if isinstance(v, float):
+        if math.isnan(v):
+            return ("float", "nan")
         return ("float", v, math.copysign(1.0, v))
     if isinstance(v, (list, dict, tuple)):
         return (type(v).__name__, repr(v))
@@ -81,6 +91,12 @@ def make_schema(variant=0):
         cpkl=fields.STORED,
         ccomp=fields.ID(sortable=columns.CompressedBytesColumn()),
         ccol=fields.COLUMN(columns.VarBytesColumn()),
+        cbitc=fields.COLUMN(columns.BitColumn()),
+        cpklc=fields.COLUMN(columns.PickleColumn(columns.VarBytesColumn())),
+        clist=fields.COLUMN(columns.VarBytesListColumn()),
+        cflist=fields.COLUMN(columns.FixedBytesListColumn(2)),
+        cblock=fields.COLUMN(columns.CompressedBlockColumn(blocksize=1)),
+        cstruct=fields.COLUMN(columns.StructColumn("ih", (0, 0))),
         cvarx=fields.ID(sortable=columns.VarBytesColumn(write_offsets_cutoff=4)),
     )
     # a dynamic field: indexed, scorable, with vectors, not stored
@@ -98,7 +114,7 @@ def rand_adoc(rng, key, rich=True):
         for f in STORED_FIELDS:
             if rng.random() < 0.6:
                 d["s"][f] = rng.randrange(1, len(POOLS[f]) + 1)
-        for f in ("cref", "cvar", "cfix", "ccomp", "ccol", "cvarx"):
+        for f in ("cref", "cvar", "cfix", "ccomp", "ccol", "cvarx", "cbitc", "cpklc", "clist", "cflist", "cblock", "cstruct"):
             if rng.random() < 0.6:
                 d["c"][f] = rng.randrange(1, min(len(POOLS[f]), 12) + 1)
     # stored numeric/date/keyword fields double as sortable columns with the same value
@@ -470,6 +486,13 @@ def dump(reader, idx, schema, rng=None, maxterms=40, columns=True, vectors=True,
                         obs.append({"kind": "column", "f": f, "d": dn, "v": 0})
                     return
                 cr = reader.column_reader(f)
+                # (reading the column in one pass gives what reading it document by document gives)
+                try:
+                    whole = list(cr)
+                    same = len(whole) == reader.doc_count_all() and all(okey(whole[dn]) == okey(cr[dn]) for dn in live)
+                    obs.append({"kind": "flag", "path": "iterating column %s == reading it by document" % f, "value": bool(same)})
+                except NotImplementedError:
+                    pass
                 for dn in live:
                     v = cr[dn]
                     if idx["docs"][dn]["c"].get(f, 0) == 0:
